@@ -263,7 +263,7 @@ func viewOf(s *dbSnap, litOf map[string]string) *wview {
 		if mb.Sub {
 			v.LSub = append(v.LSub, mb.Name)
 		}
-		mv := &mview{Name: mb.Name, UIDV: mb.UIDV, Next: mb.Next, Exists: len(mb.Rows)}
+		mv := &mview{Name: mb.Name, UIDV: mb.UIDV, Next: mb.Next, Exists: len(mb.Rows), Flags: mb.Flags, Perm: mb.Perm, Attrs: mb.Attrs}
 		for _, r := range mb.Rows {
 			fl := []string{}
 			if m := s.msByIID(r.Msg); m != nil {
@@ -306,6 +306,15 @@ func diffViews(exp, got *wview, checkSHA bool) string {
 		if e.Next != g.Next {
 			d = append(d, fmt.Sprintf("%s: UIDNEXT %d, expected %d", n, g.Next, e.Next))
 		}
+		if fmt.Sprint(e.Flags) != fmt.Sprint(g.Flags) {
+			d = append(d, fmt.Sprintf("%s: FLAGS %v, expected %v", n, g.Flags, e.Flags))
+		}
+		if fmt.Sprint(e.Perm) != fmt.Sprint(g.Perm) {
+			d = append(d, fmt.Sprintf("%s: PERMANENTFLAGS %v, expected %v", n, g.Perm, e.Perm))
+		}
+		if ga := stored(g.Attrs); fmt.Sprint(e.Attrs) != fmt.Sprint(ga) {
+			d = append(d, fmt.Sprintf("%s: LIST attributes %v, expected %v", n, ga, e.Attrs))
+		}
 		es, gs := msgsString(e.Msgs), msgsString(g.Msgs)
 		if es != gs {
 			d = append(d, fmt.Sprintf("%s: messages %s, expected %s", n, gs, es))
@@ -328,6 +337,19 @@ func diffViews(exp, got *wview, checkSHA bool) string {
 	}
 	sort.Strings(d)
 	return strings.Join(d, "; ")
+}
+
+// stored drops the attributes LIST computes itself; what is left are the attributes kept for the mailbox.
+func stored(attrs []string) []string {
+	out := []string{}
+	for _, a := range attrs {
+		switch a {
+		case `\noselect`, `\marked`, `\unmarked`, `\hasnochildren`, `\haschildren`, `\subscribed`:
+		default:
+			out = append(out, a)
+		}
+	}
+	return out
 }
 
 func msgsString(ms []vmsg) string {
